@@ -1387,17 +1387,46 @@ Qed.
 Section FilteredTrees.
 Variable matches : bytes -> bytes -> bool.
 
-(* with patterns: equal tokens <-> the pruned trees agree in everything beneath the root *)
+(* with patterns (possibly two different lists): equal tokens <-> the pruned trees agree in everything beneath the root *)
+Theorem filtered_tokens_injective2 flt1 flt2 p v1 v2 : flt1 <> [] -> flt2 <> [] ->
+  wf_v (prune matches flt1 v1) -> wf_v (prune matches flt2 v2) ->
+  (tree_tokens matches flt1 p v1 = tree_tokens matches flt2 p v2 <->
+   same_beneath (canon (prune matches flt1 v1)) (canon (prune matches flt2 v2))).
+Proof.
+  intros Hne1 Hne2 W1 W2. rewrite !filtered_tokens_pruned, !clean_build_fresh.
+  assert (Hf1 : nonempty flt1 = true) by (destruct flt1; [contradiction | reflexivity]).
+  assert (Hf2 : nonempty flt2 = true) by (destruct flt2; [contradiction | reflexivity]). rewrite Hf1, Hf2.
+  split.
+  - apply tree_toks_filtered_inj; apply wf_v_canon; assumption.
+  - apply tree_toks_filtered_of_beneath.
+Qed.
+
 Theorem filtered_tokens_injective flt p v1 v2 : flt <> [] ->
   wf_v (prune matches flt v1) -> wf_v (prune matches flt v2) ->
   (tree_tokens matches flt p v1 = tree_tokens matches flt p v2 <->
    same_beneath (canon (prune matches flt v1)) (canon (prune matches flt v2))).
+Proof. intros Hne. apply filtered_tokens_injective2; assumption. Qed.
+
+(* an edit of the patterns that changes the set of visible entries (at any depth) changes the tokens *)
+Theorem patterns_edit_detected flt flt' p v i cs i' cs' : flt <> [] -> flt' <> [] ->
+  prune matches flt v = VNode i cs -> prune matches flt' v = VNode i' cs' ->
+  wf_v (VNode i cs) -> wf_v (VNode i' cs') -> sorted_v (VNode i cs) -> sorted_v (VNode i' cs') ->
+  cs <> cs' -> tree_tokens matches flt p v <> tree_tokens matches flt' p v.
 Proof.
-  intros Hne W1 W2. rewrite !filtered_tokens_pruned, !clean_build_fresh.
-  assert (Hf : nonempty flt = true) by (destruct flt; [contradiction | reflexivity]). rewrite Hf.
-  split.
-  - apply tree_toks_filtered_inj; apply wf_v_canon; assumption.
-  - apply tree_toks_filtered_of_beneath.
+  intros Hne Hne' P1 P2 W1 W2 S1 S2 Hd E.
+  apply (filtered_tokens_injective2 flt flt' p v v Hne Hne') in E; [| rewrite P1; exact W1 | rewrite P2; exact W2].
+  rewrite P1, P2, (canon_sorted _ S1), (canon_sorted _ S2) in E.
+  inversion E; subst; contradiction.
+Qed.
+
+(* switching patterns on or off always changes the tokens of an existing object (another kind of directory value) *)
+Theorem patterns_on_off_detected flt p i cs : flt <> [] ->
+  tree_tokens matches [] p (VNode i cs) <> tree_tokens matches flt p (VNode i cs).
+Proof.
+  intros Hne E. unfold tree_tokens in E.
+  assert (Hf : nonempty flt = true) by (destruct flt; [contradiction | reflexivity]). rewrite Hf in E. cbn [nonempty] in E.
+  rewrite !clean_build_node, !tree_toks_node in E. apply toks2_inj in E. destruct E as [E _].
+  cbn [dir_value_enc] in E. revert E. destruct (isdir i); apply enc_kind_neq; cbn; discriminate.
 Qed.
 
 (* any difference among the non-excluded entries of a directory tree, at any depth, changes the filtered tokens *)
